@@ -409,7 +409,7 @@ class Run:
             if r == "unsat":
                 self.stats.ob_unsat += 1
                 d["unsat"] += 1
-                if len(self.stats.samples) < 3 and fid is None:
+                if fid is None and len(self.stats.samples) < 8 and not any(x["obligation"] == name for x in self.stats.samples):
                     self.stats.samples.append({"obligation": name, "verdict": "unsat (holds on this path)",
                                                "path_decisions": len(self.decisions),
                                                "path_condition": [str(c)[:160] for c in self.pc[:8]],
